@@ -129,8 +129,17 @@ def register(R):
                           ' and self.kwargs is other.kwargs))'],
                  bounded='bounded_lazy_eval', note='values/args/kwargs are opaque here: `==` on them is identity of the opaque terms'))
   R.add(Contract(f'{LF}::LazyObject.__eq__', P, types=dict(self='LazyObject', other='LazyObject'), ret='bool',
+                 when=lambda it, a, k: isinstance(a[1], VObj),
                  ensures=['result == (self._id == other._id or (not self._cache_result and not other._cache_result and self.value is other.value))'],
                  bounded='bounded_lazy_eval'))
+
+  _prev_hook = R.isinstance_hook
+  R.isinstance_hook = lambda it, v, cname: (z3.BoolVal(False) if isinstance(v, VOpaque) and cname in ('LazyObject', 'LazyFn')
+                                            else (_prev_hook(it, v, cname) if _prev_hook else None))      # a plain value is not a lazy object
+  R.add(Contract(f'{LF}::LazyObject.__eq__', P, variant='plain-operand', types=dict(self='LazyObject', other='obj'), ret='bool',
+                 when=lambda it, a, k: isinstance(a[1], VOpaque),
+                 ensures=['result == False'], bounded='bounded_lazy_eval',
+                 note='a lazy object never equals a plain value - and comparing them does not raise (D26: a hash collision in the result cache made it)'))
 
   CW = ['lazy_obj_cache.currsize == len(lazy_obj_cache.data)', 'lazy_obj_cache.currsize >= 0', 'lru_wf(lazy_obj_cache.data)',
         'lazy_obj_cache.maxsize >= 1', 'lazy_obj_cache.currsize <= lazy_obj_cache.maxsize']
